@@ -40,7 +40,7 @@ def deliver_case(draw, broker):
         msgs.append({"id": f"i{i}", "cls": "immediate", "delta_us": None, "form": "plain",
                      "at": draw(st.one_of(st.just(0.0), st.integers(0, 8_000_000).map(lambda u: u / 1e6))),
                      "prio": draw(st.sampled_from([0, 5, 9]))})
-    case = {"broker": broker, "seed": draw(st.integers(0, 2**16)), "msgs": msgs, "tz": draw(st.sampled_from([None, None, "EST5", "IST-5:30", "NZT-13"])),
+    case = {"broker": broker, "seed": draw(st.integers(0, 2**16)), "msgs": msgs, "tz": draw(st.sampled_from([None, None, *vclock.zones(max((m["delta_us"] or 0) for m in msgs) / 86400e6 + 3)])),
             "phase_us": draw(st.integers(0, 999_999)),
             "consumer_at": draw(st.one_of(st.just(0.0), st.integers(0, 6_000_000).map(lambda u: u / 1e6))),
             "max_unacked": draw(st.sampled_from([None, 1, 3]))}
@@ -232,7 +232,7 @@ def run_deliver(case: dict) -> Outcome:
 def visible_case(draw, broker):
     cls, us = draw(st.one_of(st.tuples(st.just("seconds"), st.integers(2_000_000, 30_000_000)),
                              st.tuples(st.just("far"), st.sampled_from([3600, 86400 * 400]).map(lambda s: s * 1_000_000 + 5))))
-    return {"broker": broker, "seed": draw(st.integers(0, 2**16)), "delta_us": us, "cls": cls, "tz": draw(st.sampled_from([None, None, "EST5", "IST-5:30", "NZT-13"])),
+    return {"broker": broker, "seed": draw(st.integers(0, 2**16)), "delta_us": us, "cls": cls, "tz": draw(st.sampled_from([None, None, *vclock.zones(us / 86400e6 + 3)])),
             "form": draw(st.sampled_from(["net", "until", "job", "by", "jobby"])), "phase_us": draw(st.integers(0, 999_999)),
             "peek_at_us": draw(st.integers(0, 1_500_000)), "prio": draw(st.sampled_from([0, 5, 9])),
             "others": draw(st.integers(0, 2))}
